@@ -3,6 +3,7 @@ package main
 import (
 	"fmt"
 	"go/token"
+	"go/types"
 	"sort"
 	"strings"
 
@@ -86,6 +87,9 @@ func (e *kindEnv) seed(v ssa.Value) kind {
 			return kScl
 		}
 	case *ssa.Field:
+		if st, ok := x.X.Type().Underlying().(*types.Struct); ok && posFieldNames[st.Field(x.Field).Name()] {
+			return kPos
+		}
 		return kScl
 	}
 	return kNone
@@ -291,11 +295,18 @@ var sigOffset = map[string]bool{}
 
 // named exceptions: construct -> reason
 var c11Exceptions = map[string]string{
-	"ParseNameAddrPVal:pos-vs-const:+PFromBody.Params.Offs==+0":  "'start of params not known yet': a parameter byte is always preceded by ';', so a real start is >= 1 at any start offset",
-	"ParseNameAddrPVal:pos-vs-const:+PFromBody.Params.Offs!=+0":  "same test at end of header",
-	"ParseSIPMsg:buf-slice:+0#2":                             "same (second definitive return)",
-	"ParseSIPMsg:buf-slice:+0":                               "msg.Buf deliberately keeps the buffer from index 0 (fields are absolute offsets into it); RawMsg is the view that starts at the message",
-	"ParseCSeqVal:return-offset:+PCSeqBody.CSeq.Offs":              "error offset points back at the offending field (a position read from a positional field)",
+	"PsipURI.AdjustOffs:pos-vs-const:+PField.Offs!=+0":          "presence test: 0 is the absent sentinel (PField.Reset); a component other than the scheme lies after the scheme, so its offset is >= 1 at every start offset",
+	"PsipURI.AdjustOffs:pos-vs-const:+PsipURI.Headers.Offs!=+0": "presence test: 0 is the absent sentinel (PField.Reset); a component other than the scheme lies after the scheme, so its offset is >= 1 at every start offset",
+	"PsipURI.AdjustOffs:pos-vs-const:+PsipURI.Host.Offs!=+0":    "presence test: 0 is the absent sentinel (PField.Reset); a component other than the scheme lies after the scheme, so its offset is >= 1 at every start offset",
+	"PsipURI.AdjustOffs:pos-vs-const:+PsipURI.Params.Offs!=+0":  "presence test: 0 is the absent sentinel (PField.Reset); a component other than the scheme lies after the scheme, so its offset is >= 1 at every start offset",
+	"PsipURI.AdjustOffs:pos-vs-const:+PsipURI.Pass.Offs!=+0":    "presence test: 0 is the absent sentinel (PField.Reset); a component other than the scheme lies after the scheme, so its offset is >= 1 at every start offset",
+	"PsipURI.AdjustOffs:pos-vs-const:+PsipURI.Port.Offs!=+0":    "presence test: 0 is the absent sentinel (PField.Reset); a component other than the scheme lies after the scheme, so its offset is >= 1 at every start offset",
+	"PsipURI.AdjustOffs:pos-vs-const:+PsipURI.User.Offs!=+0":    "presence test: 0 is the absent sentinel (PField.Reset); a component other than the scheme lies after the scheme, so its offset is >= 1 at every start offset",
+	"ParseNameAddrPVal:pos-vs-const:+PFromBody.Params.Offs==+0": "'start of params not known yet': a parameter byte is always preceded by ';', so a real start is >= 1 at any start offset",
+	"ParseNameAddrPVal:pos-vs-const:+PFromBody.Params.Offs!=+0": "same test at end of header",
+	"ParseSIPMsg:buf-slice:+0#2":                                "same (second definitive return)",
+	"ParseSIPMsg:buf-slice:+0":                                  "msg.Buf deliberately keeps the buffer from index 0 (fields are absolute offsets into it); RawMsg is the view that starts at the message",
+	"ParseCSeqVal:return-offset:+PCSeqBody.CSeq.Offs":           "error offset points back at the offending field (a position read from a positional field)",
 }
 
 func ruleC11(c *Ctx) {
@@ -307,6 +318,12 @@ func ruleC11(c *Ctx) {
 	}
 	if f := c.SFuncs["setFromParamVal"]; f != nil {
 		fns = append(fns, f)
+	}
+	// relocation and the views of a parsed URI work on positional fields only
+	for _, k := range []string{"PsipURI.AdjustOffs", "PsipURI.Long", "PsipURI.Short"} {
+		if f := c.SFuncs[k]; f != nil {
+			fns = append(fns, f)
+		}
 	}
 	sort.Slice(fns, func(i, j int) bool { return ssaKey(fns[i]) < ssaKey(fns[j]) })
 	c.check(len(fns) >= 25, "P", "functions", token.NoPos, fmt.Sprintf("%d (buf, offs)-parametric functions analysed", len(fns)))
